@@ -625,7 +625,17 @@ class Extractor {
       fo["ct"] = canonStr(F->getType());
       fo["access"] = getAccessSpelling(F->getAccess()).str();
       fo["fd"] = declId(F);
-      if (F->hasInClassInitializer()) fo["hasinit"] = true;
+      if (F->hasInClassInitializer()) {
+        fo["hasinit"] = true;
+        const Expr *IE = F->getInClassInitializer();
+        if (IE && !IE->isValueDependent()) {
+          Expr::EvalResult R;
+          if (IE->getType()->isIntegralOrEnumerationType() && IE->EvaluateAsInt(R, Ctx, Expr::SE_NoSideEffects))
+            fo["initv"] = (int64_t)R.Val.getInt().getExtValue();
+          else if (isa<CXXNullPtrLiteralExpr>(IE->IgnoreParenImpCasts()))
+            fo["initv"] = nullptr;
+        }
+      }
       fields.push_back(std::move(fo));
     }
     c["fields"] = std::move(fields);
